@@ -26,7 +26,7 @@ from pyvc.api import *  # noqa: F403
 from pyvc.api import BoundedResult, ReplayResult, bounded, unit
 
 MANIFEST = {
-    "level_text": "Deductive proof over the real code. O1 (executed backward slice of make_wsgi_app): for every value of max_request_bytes / max_response_bytes / max_externalized_response_bytes / max_upload_bytes (None or any int >= 0), storage wired or not, upload-URL provider or not, compression_level None or any int, zstandard importable or not, VGI_HTTP_DISABLE_ZSTD set or not, proof-required on/off, introspection resolver or not, sticky off / on with representative TTLs and with no / empty / one / two echo headers of arbitrary names, the dictionary handed to _CapabilitiesMiddleware contains exactly the headers whose feature is configured, each with the configured value rendered by str()/', '.join; the encodings header is always present (possibly empty) and names exactly the encode set given to the compression middleware; the middleware is always installed. O2: _CapabilitiesMiddleware.process_response copies every entry of any header map (loop invariant, any length) onto the response whatever req_succeeded / resource / method are, and adds Cache-Control: public, max-age=N exactly on OPTIONS. L3: the real parsing code of http_capabilities, applied to a response whose headers are the map O1 describes (case-insensitive or lower-cased keys), returns a record whose every capability field equals the configuration.",
+    "level_text": "Deductive proof over the real code. O1 (executed backward slice of make_wsgi_app, 1536 configurations = every combination of the property's quantifier: max_request_bytes / max_response_bytes / max_externalized_response_bytes / max_upload_bytes each None or ANY int >= 0 (symbolic), storage wired or not, upload-URL provider or not, compression on (any level) or off, proof-required on/off, introspection resolver or not, sticky off / on / on with echo headers; O1r: 648 further configurations over the settings the quantifier does not name - external config without storage, the deprecated max_stream_response_bytes alias, zstandard not importable, VGI_HTTP_DISABLE_ZSTD, four TTL values, no/empty/one/two echo headers): the dictionary handed to _CapabilitiesMiddleware contains exactly the headers whose feature is configured, each with the configured value rendered by str()/', '.join; the encodings header is always present (possibly empty) and names exactly the encode set given to the compression middleware; the middleware is always constructed. O2: _CapabilitiesMiddleware.process_response copies every entry of ANY header map (loop invariant, any length) onto the response whatever req_succeeded / resource / method are, and adds Cache-Control: public, max-age=N exactly on OPTIONS. L3: the real parsing code of http_capabilities, applied to a response whose headers are the map O1 describes (1440 configurations, symbolic caps, case-insensitive or lower-cased header names), returns a record whose every capability field equals the configuration.",
     "level_note": "Assumes (falcon): process_response of every middleware runs for every response - responder results, HTTPError 4xx/401, 404 sinks, OPTIONS/HEAD/GET on the health route - and set_header(name, value) emits that header; this part of the first sentence is covered only by the labelled bounded stand-in on the real app. The OPTIONS request of the probe and its retry loop are external (C38). Byte caps are non-negative ints; sticky_default_ttl is a finite float >= 0 (representative values: int(float) is not modelled symbolically). HttpServerCapabilities has no field for proof-required / introspection: those two headers are not read back (note). max_upload_bytes is advertised only together with upload-URL support, so it reads back as None without a provider. Engine + slicer + z3/cvc5 trusted.",
     "technique": "contract-based deductive verification: executed backward slice of make_wsgi_app (pyvc/slicing.py) with symbolic ints and finite choices, loop invariant over a symbolic ordered dict, real parsing code of the probe on an abstract response, str(int)/int(str) via the solvers' string-integer theory; labelled bounded stand-in on the real WSGI app for every route kind",
     "design_ref": "DESIGN.md §5 C40",
@@ -42,10 +42,11 @@ TRUSTED = [
 ASSUMPTIONS = [
     "byte caps (max_request_bytes, max_response_bytes, max_externalized_response_bytes, max_upload_bytes) are None or ints >= 0",
     "sticky_default_ttl: representative finite floats >= 0 (300.0, 0.9, 86400.5, 1e9): int(float) is not modelled symbolically",
-    "sticky echo header names contain no comma and no surrounding blanks (HTTP field names)",
+    "sticky echo header names: the representative names X-Tenant / X-Shard (HTTP field names contain no comma and no blanks, which is what the comma-joined header relies on)",
     "the client sees the response headers either case-insensitively (httpx) or with lower-cased names (falcon test client)",
     "available_encodings() is (zstd, gzip) or (gzip,) (zstandard importable or not)",
     "executions of make_wsgi_app that complete normally (configuration errors raise before an app exists)",
+    "NOT reduced: that the constructed _CapabilitiesMiddleware is appended to the middleware list given to falcon.App (statement outside the slice) - observed on the real app by the bounded stand-in",
 ]
 
 ENC = codec.Encoding
